@@ -233,8 +233,13 @@ impl<'tcx> Cx<'tcx> {
                 attrs.push(J::s(&snip));
             }
         }
+        // full source text of the item (derive helper attributes such as logos' #[token]/#[regex] do not
+        // survive into HIR attributes; rules read them from here)
+        let item_span = tcx.hir_span_with_body(hid);
+        let src = tcx.sess.source_map().span_to_snippet(item_span).unwrap_or_default();
         J::obj(vec![
             ("path", J::s(&self.path_of(id.to_def_id()))),
+            ("src", J::s(if src.len() < 20000 { &src } else { "" })),
             ("kind", J::s(if adt.is_enum() { "enum" } else { "struct" })),
             ("sp", J::s(&self.raw_span(tcx.def_span(id)))),
             ("attrs", J::Arr(attrs)),
